@@ -42,14 +42,16 @@ pub struct GenCfg {
     /// bias towards several rotation cycles per type (C16/C04/C05): more tracks per slot, a
     /// maintenance allowance that makes counters negative, default depots at several locations
     pub cycle_rich: bool,
+    /// largest number of given depots (several may share a location)
+    pub max_depots: usize,
 }
 
 impl GenCfg {
     pub const fn quick() -> GenCfg {
-        GenCfg { max_departures: 8, max_slots: 3, force_slots: false, heavy_demand: false, max_need: 6, max_total_need: 22, single_type: false, small_grid: false, cycle_rich: false }
+        GenCfg { max_departures: 8, max_slots: 3, force_slots: false, heavy_demand: false, max_need: 6, max_total_need: 22, single_type: false, small_grid: false, cycle_rich: false, max_depots: 5 }
     }
     pub const fn thorough() -> GenCfg {
-        GenCfg { max_departures: 16, max_slots: 4, force_slots: false, heavy_demand: false, max_need: 6, max_total_need: 36, single_type: false, small_grid: false, cycle_rich: false }
+        GenCfg { max_departures: 16, max_slots: 4, force_slots: false, heavy_demand: false, max_need: 6, max_total_need: 36, single_type: false, small_grid: false, cycle_rich: false, max_depots: 12 }
     }
 }
 
@@ -58,7 +60,7 @@ pub fn inst_specs(cfg: &GenCfg) -> Vec<SecSpec> {
         sec(24, 1, 1),                                  // params
         sec(4, 1, if cfg.single_type { 1 } else { MAX_TYPES }), // vehicle types
         sec(2 * MAX_LOCS, 1, MAX_LOCS),                 // locations + their matrix rows
-        sec(2 + 2 * MAX_TYPES, 0, 5),                   // depots
+        sec(2 + 2 * MAX_TYPES, 0, cfg.max_depots),      // depots
         sec(3 + 4 * MAX_RSEGS, 1, 4),                   // routes
         sec(3 + 3 * MAX_RSEGS, 1, cfg.max_departures),  // departures
         sec(4, 0, cfg.max_slots),                       // maintenance slots
@@ -208,7 +210,14 @@ pub fn decode_inst(t: &Tape, cfg: &GenCfg, prefix: &str) -> Inst {
             });
             origin = dest;
         }
-        routes.push(Route { id: format!("{}R{}", prefix, i), vtype: types[vt].id.clone(), segs });
+        let route_id = if id_style == 1 && i < 3 { format!("{}{}", prefix, ["IC", "IC_1", "IC_1_2"][i]) } else { format!("{}R{}", prefix, i) };
+        if id_style == 1 && i < 2 {
+            // "IC" + "_" + "1_2" == "IC_1" + "_" + "2": ids that collide when joined by '_'
+            for (k, sg) in segs.iter_mut().enumerate() {
+                sg.id = format!("{}{}", prefix, [["1_2", "1_2_3", "9"], ["2", "2_3", "8"]][i][k.min(2)]);
+            }
+        }
+        routes.push(Route { id: route_id, vtype: types[vt].id.clone(), segs });
     }
 
     // ---- departures
@@ -341,9 +350,11 @@ pub fn decode_inst(t: &Tape, cfg: &GenCfg, prefix: &str) -> Inst {
         None
     } else {
         let mut out = Vec::new();
-        for (i, r) in t.sec(S_DEPOTS).iter().enumerate().take(5) {
+        let tiny_depots = pick_w(f(p, 21), &[5, 1]) == 1;
+        for (i, r) in t.sec(S_DEPOTS).iter().enumerate().take(cfg.max_depots) {
             let loc = pick(f(r, 0), nlocs);
-            let capacity = choose(f(r, 1), &[3u64, 0, 1, 2, 6, 50]);
+            // "tiny depots": every depot holds at most one vehicle (capacities bind everywhere)
+            let capacity = if tiny_depots { choose(f(r, 1), &[1u64, 0, 1]) } else { choose(f(r, 1), &[3u64, 0, 1, 2, 6, 50, 70_000]) };
             let mut allowed = Vec::new();
             for ty in 0..ntypes {
                 match pick_w(f(r, 2 + 2 * ty), &[4, 2, 1, 2, 1, 1]) {
@@ -352,7 +363,7 @@ pub fn decode_inst(t: &Tape, cfg: &GenCfg, prefix: &str) -> Inst {
                     2 => allowed.push((types[ty].id.clone(), Some(0))),
                     3 => allowed.push((types[ty].id.clone(), Some(1))),
                     4 => allowed.push((types[ty].id.clone(), Some(2))),
-                    _ => allowed.push((types[ty].id.clone(), Some(5))),
+                    _ => allowed.push((types[ty].id.clone(), Some(if f(r, 2 + 2 * ty) & 1 == 1 { 66_000 } else { 5 }))),
                 }
             }
             out.push(DepotIn { id: entity_id('D', i, id_style, prefix), location: locs[loc].clone(), capacity, allowed });
@@ -495,6 +506,14 @@ pub fn inst_classes(fl: &Flat) -> Vec<&'static str> {
     }
     if inst.types.first().map(|t| t.id.ends_with("IC")).unwrap_or(false) {
         c.push("exotic_ids");
+    }
+    if let Some(ds) = &inst.depots {
+        if ds.len() >= 6 {
+            c.push("depots>=6");
+        }
+        if ds.len() >= 3 && ds.iter().all(|d| d.capacity <= 1) {
+            c.push("tiny_depots");
+        }
     }
     if inst.day_limits.iter().any(|d| d.is_some()) {
         c.push("day_limit_present");
